@@ -466,9 +466,10 @@ impl SymExpr {
                     // be implemented.
                     (lhs, rhs) if lhs == rhs => SymExpr::Value(1),
 
-                    // x.div_ceil(b).div_ceil(c) => x.div_ceil(b * c) if b > 0
-                    // and c > 0.
-                    (SymExpr::DivCeil(lhs, c1), c2) => match (&*c1, c2) {
+                    // x.div_ceil(b).div_ceil(c) => x.div_ceil(b * c) if c > 0.
+                    //
+                    // Where we assume the divisors are non-zero.
+                    (SymExpr::DivCeil(lhs, c1), c2) if c2.is_positive() => match (&*c1, c2) {
                         (SymExpr::Value(c1), SymExpr::Value(c2)) if *c1 > 0 && c2 > 0 => {
                             lhs.div_ceil(&SymExpr::Value(c1 * c2))
                         }
